@@ -19,6 +19,9 @@ import ast
 import importlib
 import os
 import sys
+import warnings
+
+warnings.simplefilter("ignore")       # stderr is merged into the generated text by the caller
 
 sys.path.insert(0, os.path.dirname(os.path.abspath(__file__)))
 import dumplib  # noqa: E402
@@ -403,8 +406,6 @@ def main():
     out.append(dumplib.definition("bcc_core_range", "Z", dumplib.z(int_const(rngs[0].args[0], "range(N)"))))
 
     # ------------------------------------------------------------------ live objects
-    import warnings
-    warnings.simplefilter("ignore")
     from rig.links import Links
     from rig.machine_control import consts, common, struct_file
     from rig.machine_control import machine_controller as mcm
